@@ -617,6 +617,7 @@ func propC05(c *Ctx) {
 	c.ruleDisallowedCalls("C05-DISALLOWED-CALLS")
 	c.ruleIDSeparator("C05-ID-SEPARATOR")
 	c.ruleIDSourcesVerbatim("C05-ID-SOURCES-VERBATIM")
+	c.ruleBorrowedSliceReadOnly("C05-BORROWED-SLICE-READ-ONLY") // the tag lists of an interaction are inserted into, not written over
 	c.ruleLoopFlags("C05-LOOP-FLAG")
 }
 
